@@ -1,4 +1,5 @@
 import Mutagen.Proofs.Store
+import Mutagen.Proofs.TransitionExact
 /-!
 # C10 — files written into a root always carry the planned content
 
@@ -55,6 +56,40 @@ expected one. -/
 theorem receiver_burn_safe (P : Params) (r : Recv) (s : State) (msgs : List (Msg × Bool)) (h : StoreInv P s) :
     ∀ loc c, fileAt (receiveAll P r s msgs).2 loc = some c → P.H c = loc.1 :=
   inv_receiveAll P msgs r s h
+
+/-- **Every file moved into the root carries the planned digest.** For
+`findAndMoveStagedFileIntoPlace` (the whole of `createFile`, and the
+replacement step of `swapFile`), with a staging area in which every file
+hashes to the digest it is staged under (what the store invariant gives), for
+every fault oracle including the cross-device fallback:
+* if the move succeeds, the file now at `parent/name` has content hashing to
+  the digest of the plan's entry;
+* if nothing is staged for (path, digest), the move fails and (with a non-zero
+  permission mode) the missing-files flag is set;
+* the staging area stays honest. -/
+theorem transition_file_digest (H : List UInt8 → List UInt8) (env : Mutagen.Model.TFS.Env)
+    (htmp : ∀ k l, Mutagen.Model.TFS.isTemporaryName (env.tmpName k l) = true)
+    (st : Mutagen.Model.TFS.St) (path : Mutagen.Model.Path) (target : Mutagen.Model.Entry)
+    (parent : Mutagen.Model.TFS.Handle) (name : Mutagen.Model.Name)
+    (hname : Mutagen.Model.TFS.isTemporaryName name = false) (replace : Bool) (r : Option String)
+    (st' : Mutagen.Model.TFS.St)
+    (honest : ∀ k f, Mutagen.Model.TFS.aget k st.staged = some f → H f.data = k.2)
+    (h : Mutagen.Model.TFS.findAndMove env st path target parent name replace = (r, st')) :
+    (r = none → ∃ d perm m i, Mutagen.Proofs.FS.sget st'.fs (parent ++ [name]) = some (.file d perm m i) ∧
+      H d = target.props.digest) ∧
+    (Mutagen.Model.TFS.aget (path, target.props.digest) st.staged = none →
+      env.provideErr path target.props.digest = false →
+      r ≠ none ∧ (Mutagen.Proofs.FS.fileModeOf env target % 512 ≠ 0 → st'.missing = true)) ∧
+    (∀ k f, Mutagen.Model.TFS.aget k st'.staged = some f → H f.data = k.2) := by
+  obtain ⟨_, hs, _, hm, hmiss⟩ :=
+    Mutagen.Proofs.FS.findAndMove_eff env htmp st path target parent name hname replace r st' h
+  refine ⟨?_, hmiss, ?_⟩
+  · intro hr
+    obtain ⟨sf, hsf, perm, m, i, hg, _⟩ := hm hr
+    exact ⟨sf.data, perm, m, i, hg, honest _ sf hsf⟩
+  · intro k f hk
+    obtain ⟨f0, hk0, hd⟩ := hs k f hk
+    rw [hd]; exact honest k f0 hk0
 
 /-- Non-vacuity: a store that has committed `[1,2]` under some path holds it
 at the location of its digest. -/
